@@ -60,22 +60,25 @@ Theorem C10_stack_structure : forall cfg es c, state_after cfg es = Some c -> WF
 Proof. exact state_WF. Qed.
 Print Assumptions C10_stack_structure.
 
-(* (c) Completeness on the fragment without markers, references, chunked arrays, media and custom types
-   (Model/RulesSpec.v: [doc], [wf_doc], [flatten_doc]): every well-formed document tree - record types first,
-   one top-level value, maps with keyable pairwise-distinct keys, edges with three components and non-null
-   source and destination, nodes with a value, records of the declared arity, padding and comments
-   anywhere a value or a key or a container end may come - is accepted, provided it is within the object
-   and depth limits. *)
+(* (c) Completeness on the tree grammar of Model/RulesSpec.v ([doc], [wf_doc], [flatten_doc]): without chunked
+   arrays, media and custom types, and without markers / references in map-key position.  Every well-formed
+   document tree - record types first; one top-level value (not a reference); maps with keyable pairwise-distinct
+   keys; edges with three components and non-null source and destination; nodes with a value; records of the
+   declared arity; markers (padding allowed after them) on scalars, markable arrays and containers, nested markers
+   included, with pairwise distinct ids; backward and forward references in value position, each naming a marker
+   of the document; padding and comments wherever a value, a key or a container end may come - is accepted,
+   provided it is within the object, depth and marker limits. *)
 Theorem C10_wf_documents_accepted :
   forall cfg d, wf_doc cfg d = true ->
     object_usage (flatten_doc cfg d) <= max_object_count cfg -> doc_height d <= max_container_depth cfg ->
+    marker_usage (flatten_doc cfg d) <= max_local_reference_count cfg ->
     accepts_document cfg (flatten_doc cfg d) = true.
 Proof. exact wf_doc_accepted. Qed.
 Print Assumptions C10_wf_documents_accepted.
 
-(* The full statement on the fragment, kept for reference: an event list of the fragment is accepted exactly
-   when it is the flattening of a well-formed document within the limits.  Proved: right to left (above).
-   Not proved: left to right (the ghost-tree construction); in its place the invariants (b). *)
+(* The full statement on the marker-free part of the fragment, kept for reference: such an event list is accepted
+   exactly when it is the flattening of a well-formed document within the limits.  Proved: right to left (above,
+   on the larger grammar).  Not proved: left to right (the ghost-tree construction); in its place the invariants (b). *)
 Definition C10_fragment_exact_full : Prop :=
   forall cfg es, in_fragment es = true ->
     (accepts_document cfg es = true <->
@@ -85,18 +88,25 @@ Definition C10_fragment_exact_full : Prop :=
 Definition C10_tree : doc :=
   {| d_pre := [TopTrivia TPad; TopRecType [114] [EStringArray AT_String [120]; EPosInt 2] [TPad]];
      d_top := VT (TComment false [104;105])
-                (VMap [([TPad], EPosInt 1, VRecord [114] [VLeaf ENull; VT TPad (VLeaf (EFloat 0))] []);
-                       ([], ETrue, VEdge (VLeaf (EPosInt 1)) (VLeaf ENull) (VList [] [TPad]) []);
-                       ([], EStringArray AT_String [107], VNode (VLeaf ENull) [VLeaf (EUid [1;2]); VList [VLeaf EFalse] []] [])]
-                      [TPad]) |}.
+                (VMarked [97] 1
+                  (VMap [([TPad], EPosInt 1, VRecord [114] [VLeaf ENull; VT TPad (VMarked [98] 0 (VLeaf (EFloat 0)))] []);
+                         ([], ETrue, VEdge (VRef [99]) (VLeaf ENull) (VMarked [99] 2 (VList [VRef [97]; VRef [98]] [TPad])) []);
+                         ([], EStringArray AT_String [107],
+                          VNode (VLeaf ENull) [VMarked [100] 0 (VLeaf (EStringArray AT_String [1;2])); VList [VLeaf EFalse; VRef [100]] []] [])]
+                        [TPad])) |}.
 Example C10_tree_wf : wf_doc default_rcfg C10_tree = true.
 Proof. vm_compute. reflexivity. Qed.
 Example C10_tree_accepted : accepts_document default_rcfg (flatten_doc default_rcfg C10_tree) = true.
 Proof. vm_compute. reflexivity. Qed.
-Example C10_tree_bad_edge :
+Example C10_tree_bad :
   wf_doc default_rcfg {| d_pre := []; d_top := VEdge (VLeaf ENull) (VLeaf ENull) (VLeaf ETrue) [] |} = false /\
-  accepts_document default_rcfg (flatten_doc default_rcfg {| d_pre := []; d_top := VEdge (VLeaf ENull) (VLeaf ENull) (VLeaf ETrue) [] |}) = false.
-Proof. vm_compute. split; reflexivity. Qed.
+  accepts_document default_rcfg (flatten_doc default_rcfg {| d_pre := []; d_top := VEdge (VLeaf ENull) (VLeaf ENull) (VLeaf ETrue) [] |}) = false /\
+  (* a reference without a marker, and a marker id used twice *)
+  wf_doc default_rcfg {| d_pre := []; d_top := VList [VRef [97]] [] |} = false /\
+  accepts_document default_rcfg (flatten_doc default_rcfg {| d_pre := []; d_top := VList [VRef [97]] [] |}) = false /\
+  wf_doc default_rcfg {| d_pre := []; d_top := VList [VMarked [97] 0 (VLeaf ENull); VMarked [97] 0 (VLeaf ETrue)] [] |} = false /\
+  accepts_document default_rcfg (flatten_doc default_rcfg {| d_pre := []; d_top := VList [VMarked [97] 0 (VLeaf ENull); VMarked [97] 0 (VLeaf ETrue)] [] |}) = false.
+Proof. vm_compute. repeat split; reflexivity. Qed.
 
 Example C10_example_document :
   accepts_document default_rcfg
